@@ -2950,6 +2950,9 @@ fn main() {
 	if mode == "all" || mode == "overflow" {
 		more::channel_overflow(&mut cx);
 	}
+	if mode == "all" || mode == "peers" {
+		more::peers_level(&mut cx, &work);
+	}
 	if mode == "all" || mode == "wtime" {
 		more::write_timeouts(&mut cx);
 	}
